@@ -33,7 +33,7 @@ impl Engine for SysEngine {
     fn budget(&self, tier: Tier) -> (u32, u32) {
         match tier {
             Tier::Quick => (64, 8),
-            Tier::Thorough => (256, 40),
+            Tier::Thorough => (128, 24),
         }
     }
     fn strategy(&self, tier: Tier) -> BoxedStrategy<SysCase> {
